@@ -633,8 +633,8 @@ def main(rep, tier, only):
     if only in (None, "WRAP"):
         rule_wrap(rep, db, cfg)
     rep.extra["not_covered"] = ["binary_search", "equal_range", "unique", "unique_if", "reverse", "repeat", "generate_n", "split_string", "join_strings",
-                                "map_iteration / sequence_iteration (progress only, C01 LOOP)", "container::join / set operations / key_set / map_values",
-                                "array:: and tuple:: helpers (value conservation: C05)", "static ranges (tuples, mpl lists)"]
+                                "map_iteration / sequence_iteration (end() re-evaluation and erase continuation only: ERASE-SAFE; progress: C01 LOOP)", "container::join / set operations / key_set / map_values",
+                                "array:: and tuple:: helpers (only the evaluation order of init: ORDER; value conservation: C05)", "static ranges (tuples, mpl lists)"]
     rep.explanation = ("Opaque functors make every call a named event; run-time ranges are unrolled twice (longer ranges end as a truncated prefix). "
                        "Decides, for the listed helpers, the clause 'visit elements in order, stop where documented, result built from the calls in "
                        "order' and the delegation shape of the std wrappers. It does not decide the remaining functions of the property's list.")
